@@ -352,10 +352,45 @@ package nutsdb
 //@   ensures err != nil ==> df == nil
 //@   modifies nothing
 
-//@ func BPTree.WriteNodes
-//@   assumed writes the node file of a sealed segment (BFS over the tree, package-level queue); sync behaviour is not verified here
+// The breadth-first walk of WriteNodes goes through the package-level variable `queue`, which every tree of every
+// database in the process shares: it may only be touched under the package-level mutex (ghost queueLocked).
+//@ spec ghost queueLocked int
+//@ extern sync.Mutex.Lock (m)
+//@   ensures queueLocked == 1
+//@   modifies queueLocked
+//@ extern sync.Mutex.Unlock (m)
+//@   requires queueLocked == 1
+//@   ensures queueLocked == 0
+//@   modifies queueLocked
+//@ func enqueue
+//@   requires[C14] queueLocked == 1
+//@   requires node != nil
+//@   ensures queue != nil
+//@   modifies queue, all(Node.Next)
+//@   safety[C20] panics
+//@   loops 1
+//@   loop 1: modifies nothing
+//@   loop 1: invariant c != nil && node == old(node)
+//@ func dequeue
+//@   requires[C14] queueLocked == 1
+//@   requires queue != nil
+//@   ensures result == old(queue) && queue == old(queue.Next)
+//@   modifies queue
+//@   safety[C20] panics
+//@ func BPTree.WriteNode
+//@   assumed serialises one node (ToBinary: encoding/binary) and writes it at its address through the OS
 //@   ensures syncEnable ==> unsynced == old(unsynced)
-//@   modifies all(Node.Next), queue, unsynced
+//@   modifies unsynced
+//@ func BPTree.WriteNodes
+//@   requires t != nil && t.root != nil && nodesOK(nil)
+//@   ensures syncEnable ==> unsynced == old(unsynced)
+//@   modifies all(Node.Next), queue, unsynced, queueLocked
+//@   safety[C20] panics
+//@   loops 2
+//@   loop 1: modifies all(Node.Next), queue, unsynced
+//@   loop 1: invariant t == old(t) && syncEnable == old(syncEnable) && fd == pre(fd) && nodesOK(nil) && (syncEnable ==> unsynced == old(unsynced)) && queueLocked == pre(queueLocked) && (queue != nil ==> allocated(queue))
+//@   loop 2: modifies all(Node.Next), queue
+//@   loop 2: invariant t == old(t) && n == pre(n) && n != nil && allocated(n) && !n.isLeaf && 0 <= i && nodesOK(nil) && queueLocked == pre(queueLocked) && (queue != nil ==> allocated(queue))
 //@ func BPTreeRootIdx.Persistence
 //@   assumed writes the root index record through the OS
 //@   ensures syncEnable ==> unsynced == old(unsynced)
@@ -376,9 +411,10 @@ package nutsdb
 //@   ensures tx.db.opt.EntryIdxMode == HintBPTSparseIdxMode ==> tx.db.ActiveBPTreeIdx != nil && tx.db.ActiveCommittedTxIdsIdx != nil
 //@   ensures result != nil ==> tx.db.ActiveFile == old(tx.db.ActiveFile) || tx.db.ActiveFile == nil
 //@   modifies tx.db.MaxFileID, tx.db.ActiveFile, tx.db.BPTreeRootIdxes, elems(tx.db.BPTreeRootIdxes), tx.db.BPTreeKeyEntryPosMap, tx.db.ActiveBPTreeIdx, tx.db.ActiveCommittedTxIdsIdx,
-//@        entries(tx.ReservedStoreTxIDIdxes), all(Node.Next), all(BPTree.Filepath), all(BPTree.enabledKeyPosMap), all(BPTree.keyPosMap), queue, unsynced
+//@        entries(tx.ReservedStoreTxIDIdxes), all(Node.Next), all(BPTree.Filepath), all(BPTree.enabledKeyPosMap), all(BPTree.keyPosMap), queue, unsynced, queueLocked
 //@   ensures[C20] old(nodesOK(nil)) ==> nodesOK(nil)
 //@   ensures reservedOK(tx)
+//@   requires[C20] nodesOK(nil)
 //@   safety[C14] locks
 //@   safety[C20] panics
 
@@ -657,10 +693,10 @@ package nutsdb
 //@   requires reservedOK(tx)
 //@   ensures tx.db.opt.SyncEnable ==> unsynced == old(unsynced)
 //@   ensures nodesOK(nil)
-//@   modifies alltype(BPTree), alltype(Node), alltype(Record), queue, unsynced, allelems(tx.db.ActiveCommittedTxIdsIdx.root.Keys), allelems(tx.db.ActiveCommittedTxIdsIdx.root.pointers)
+//@   modifies alltype(BPTree), alltype(Node), alltype(Record), queue, unsynced, queueLocked, allelems(tx.db.ActiveCommittedTxIdsIdx.root.Keys), allelems(tx.db.ActiveCommittedTxIdsIdx.root.pointers)
 //@   safety[C20] panics
 //@   loops 1
-//@   loop 1: modifies alltype(BPTree), alltype(Node), alltype(Record), queue, unsynced, allelems(tx.db.ActiveCommittedTxIdsIdx.root.Keys), allelems(tx.db.ActiveCommittedTxIdsIdx.root.pointers)
+//@   loop 1: modifies alltype(BPTree), alltype(Node), alltype(Record), queue, unsynced, queueLocked, allelems(tx.db.ActiveCommittedTxIdsIdx.root.Keys), allelems(tx.db.ActiveCommittedTxIdsIdx.root.pointers)
 //@   loop 1: invariant tx == old(tx) && tx.db == old(tx.db) && tx.ReservedStoreTxIDIdxes == old(tx.ReservedStoreTxIDIdxes) && nodesOK(nil) && (tx.db.opt.SyncEnable ==> unsynced == old(unsynced)) &&
 //@        (forall f int64 :: has(tx.ReservedStoreTxIDIdxes, f) ==> tx.ReservedStoreTxIDIdxes[f] != nil)
 //@ spec func metaOK(m *BucketMeta) bool = metaWF(m) && allocated(m) && len(m.start) < 2147483642 && len(m.end) < 2147483642
